@@ -256,7 +256,7 @@ static void c05(const Trace& t, const Analysis& A, Verdict& V) {
 		if (w.code != OP_UPDATE && w.code != OP_REACT && w.code != OP_QUERY) continue;
 		const uint8_t s = w.activeBefore;
 		std::vector<std::pair<uint8_t, uint8_t>> E;
-		auto push = [&](uint8_t st, uint8_t m) { if (defines(f, st, m)) E.push_back({st, m}); };
+		auto push = [&](uint8_t st, uint8_t m) { if (defines(f, st, m) || injOf(f, st) > 0) E.push_back({st, m}); };   // (the zoo's injections define every callback)
 		if (w.code == OP_UPDATE) { push(NOID, M_PRE_UPDATE); push(s, M_PRE_UPDATE); push(NOID, M_UPDATE); push(s, M_UPDATE); push(s, M_POST_UPDATE); push(NOID, M_POST_UPDATE); }
 		else if (w.code == OP_REACT) { push(NOID, M_PRE_REACT); push(s, M_PRE_REACT); push(NOID, M_REACT); push(s, M_REACT); push(s, M_POST_REACT); push(NOID, M_POST_REACT); }
 		else { push(NOID, M_QUERY); push(s, M_QUERY); }
